@@ -174,6 +174,10 @@ func getRanger(v reflect.Value) (r Ranger, cleanup func(), err error) {
 	}
 
 	pr := pool.Get().(pooledRanger)
+	pr = verifSwapRanger(pool, pr)
 	pr.Setup(v)
+	if verifHooked {
+		return pr, func() { verifReleaseRanger(pool, pr); pool.Put(pr) }, nil
+	}
 	return pr, func() { pool.Put(pr) }, nil
 }
